@@ -278,14 +278,14 @@ class R:
         self.semi = "" if (self.py or self.go) else ";"
 
 
-def render_methods(lang, blocks):
+def render_methods(lang, blocks, extra_params=""):
     """-> source text of one file holding one method per block, named m0, m1, ..."""
     r = R(lang)
     out = []
     counter = [0]
     if lang == "python":
         for i, b in enumerate(blocks):
-            out.append("def m%d(%s):" % (i, "" if i % 3 == 2 else "c0, c1, c2, n, lst"))
+            out.append("def m%d(%s):" % (i, "" if i % 3 == 2 else "c0, c1, c2, n, lst" + extra_params))
             out += render_block(r, b, 1, counter, [i % 2])
     elif lang in ("javascript", "typescript"):
         ty = lang == "typescript"
@@ -343,6 +343,8 @@ def render_block(r, block, level, counter, cond):
             counter[0] += 1
             if s[1] == "def":
                 out.append("%s%s%s = %d%s" % (ind, r.v, s[2], counter[0], r.semi))
+            elif s[1] == "upd":
+                out.append("%s%s%s = %s%s + %d%s" % (ind, r.v, s[2], r.v, s[2], counter[0], r.semi))
             else:
                 out.append("%s%st%d = %s%s%s" % (ind, r.v, counter[0], r.v, s[2], r.semi))
         elif k == "s":
